@@ -246,3 +246,39 @@ End Silencing.
 Arguments brackets_ok_from {Arg}. Arguments brackets_ok {Arg}. Arguments flag_scan {Arg}.
 Arguments silenced_all {Arg}. Arguments balanced {Arg}. Arguments is_flag_op {Arg}.
 Arguments emit_body {Arg Res}. Arguments spec_emit_all {Arg Res}.
+
+(* ---------- stage 3: callbacks that raise ---------- *)
+Section Raising.
+Variables Arg Res : Type.
+Variable behx : func -> Z -> Arg -> option Res.
+Notation op := (op Arg).
+
+Definition resultx (x : call Arg) : option Res := behx (c_func x) (c_sender x) (c_arg x).
+
+(* make the expected calls in order until one raises *)
+Fixpoint run_calls (l done : list (call Arg)) (res : list Res) : outx Arg Res :=
+  match l with
+  | [] => XEmit done (RList res)
+  | x :: r => match resultx x with
+              | None => XRaise (done ++ [x])
+              | Some v => run_calls r (done ++ [x]) (res ++ [v])
+              end
+  end.
+
+Definition emit_body_x (reg : list entry) (ev snd : Z) (a : Arg) (single : option bool) : outx Arg Res :=
+  let l := map (call_of snd a) (expected ev snd reg) in
+  if truthy single then
+    match l with
+    | [] => XEmit [] (RList [])
+    | x :: _ => match resultx x with None => XRaise [x] | Some v => XEmit [x] (RSingle v) end
+    end
+  else run_calls l [] [].
+
+Definition spec_emit_x (p : list op) (ev snd : Z) (a : Arg) (single : option bool) : outx Arg Res :=
+  if silenced_all p then XEmit [] RNone else emit_body_x (registered p) ev snd a single.
+End Raising.
+Arguments resultx {Arg Res}. Arguments run_calls {Arg Res}. Arguments emit_body_x {Arg Res}.
+Arguments spec_emit_x {Arg Res}.
+
+Definition lift_out {Arg Res} (o : out Arg Res) : outx Arg Res :=
+  match o with ONone => XNone | OError => XError | OBad => XBad | OEmit c r => XEmit c r end.
